@@ -38,6 +38,7 @@ def dispatch (l : Line) : List Verdict :=
   | "fresh13" => handleFresh13 l
   | "setcookie" => handleSetCookie l
   | "jar" => handleJar l
+  | "cookieval14" => handleCookieVal14 l
   | "retrychain" => handleRetryChain l
   | "retryreset" => handleRetryReset l
   | "ratelimit" => handleRateLimit l
